@@ -457,8 +457,19 @@ fn supersede_case(ctx: &mut Ctx, e: &mut FdtEngine, g: &mut G, dur: u64, stepus:
     let mut c = Case { ctx, e, now: g.rng.range(1_600_000_000, 1_900_000_000) * 1_000_000 + frac, tois: Vec::new(), reads: 0 };
     c.op(&cfg_line(true, g.rng.below(1 << 20) as u32, dur, &oti, &None, 0));
     let line = add_line("file:///a", "text/plain", 10, 1, 0, None, &None, &None, "~", &None, 1, "d1000000", 0);
-    c.op(&line);
+    let r = c.op(&line);
     c.publish();
+    if idx % 2 == 1 {
+        // every other case: the only object is removed and the EMPTY instance published - an FDT listing no object
+        // must be superseded before it expires like any other (class of seeded C10-11)
+        if let Some(t) = r.strip_prefix("ok ") {
+            c.drain(50);
+            c.now += stepus;
+            c.op(&format!("fdtabs rm {}", t.trim()));
+            c.publish();
+            c.ctx.count("supersede-empty-fdt-cases");
+        }
+    }
     let horizon = dur.min(70_000_000) * 2 + 3_000_000;
     let end = c.now + horizon;
     while c.now < end && !c.e.dead {
